@@ -219,18 +219,7 @@ def gen_schedule(rng, kinds):
     return sch
 
 
-def generate(rng, tier, index):
-    if index < 2 * len(SETTINGS):
-        no, cc = SETTINGS[index % len(SETTINGS)]
-        module = ["tools", "laue"][(index // len(SETTINGS)) % 2]
-    else:
-        # R-centred groups and low-symmetry classes get extra weight (two settings / known finding)
-        r = rng.below(10)
-        if r == 0:
-            no, cc = rng.choice(R_GROUPS), rng.choice(["standard", "rhombohedral"])
-        else:
-            no, cc = rng.choice(SETTINGS)
-        module = rng.choice(["tools", "laue"])
+def gen_workload(rng, tier, no, cc):
     kind = cell_kind(no, cc)
     _, scale = kf_class(no, cc)
     for _ in range(20):
@@ -240,54 +229,114 @@ def generate(rng, tier, index):
             break
     else:
         raise core.HarnessError("no margin-respecting shell found")
-    smin, smax = sh
-    fault_free = rng.chance(0.4)
-    kinds = [] if fault_free else [k for k in ("preconsume", "steal", "reseed") if rng.chance(0.6)] or ["reseed"]
+    return {"sgno": no, "cell_choice": cc, "cell": [core.fhex(x) for x in cell], "cell_style": style,
+            "smin": core.fhex(sh[0]), "smax": core.fhex(sh[1]),
+            "pair": bool(no in R_GROUPS and rng.chance(0.6))}
+
+
+def related_workload(rng, tier, w):
+    """a second workload of the same session, chosen to differ from the first in few arguments
+    (what a cache or a memo keyed on too little would confuse)"""
+    no, cc = w["sgno"], w["cell_choice"]
+    r = rng.below(8)
+    if r == 0 and no in R_GROUPS:
+        return gen_workload(rng, tier, no, "rhombohedral" if cc == "standard" else "standard")
+    if r <= 2:
+        # same setting and cell, another shell
+        cell = [core.unhex(x) for x in w["cell"]]
+        sh = gen_shell(rng, cell, tier, kf_class(no, cc)[1])
+        if sh is not None:
+            w2 = dict(w)
+            w2["smin"], w2["smax"] = core.fhex(sh[0]), core.fhex(sh[1])
+            return w2
+    if r <= 4:
+        return gen_workload(rng, tier, no, cc)            # same setting, another cell and shell
+    if r <= 6:
+        # a neighbouring group number of the same crystal family (same cell kind)
+        cands = [(n, cc) for n in (no - 2, no - 1, no + 1, no + 2) if 1 <= n <= 230 and
+                 cell_kind(n, cc if n in R_GROUPS else "standard") == cell_kind(no, cc)]
+        if cands:
+            n2, c2 = rng.choice(cands)
+            c2 = c2 if n2 in R_GROUPS else "standard"
+            cell = [core.unhex(x) for x in w["cell"]]
+            sh = gen_shell(rng, cell, tier, kf_class(n2, c2)[1])
+            if sh is not None:
+                return {"sgno": n2, "cell_choice": c2, "cell": w["cell"], "cell_style": w["cell_style"],
+                        "smin": w["smin"] if rng.chance(0.5) else core.fhex(sh[0]),
+                        "smax": w["smax"] if rng.chance(0.5) else core.fhex(sh[1]), "pair": False} \
+                    if O.margin_ok(O.stl_of(O.box_points(cell, max(core.unhex(w["smax"]), sh[1]) * 1.1), O.recip_metric(cell)),
+                                   [core.unhex(w["smin"]), core.unhex(w["smax"]), sh[0], sh[1],
+                                    core.unhex(w["smax"]) * kf_class(n2, c2)[1], sh[1] * kf_class(n2, c2)[1]]) \
+                    else gen_workload(rng, tier, n2, c2)
+    n2, c2 = rng.choice(SETTINGS)
+    return gen_workload(rng, tier, n2, c2)
+
+
+def gen_mode(rng, no, cc):
     names = SGNAMES[no]
+    if rng.chance(0.5):
+        return {"by": "sgno"}
     if cc == "rhombohedral":
+        if rng.chance(0.5):
+            base = [n for n in names if not n.endswith("r") or n[:-1] not in names]
+            return {"by": "sgname", "name": name_variant(rng, rng.choice(base)), "cell_choice": "rhombohedral"}
         auto = [n for n in names if n.endswith("r") and len(n) > 2 and n[:-1] in names]
     else:
         auto = [n for n in names if not (n.endswith("r") and n[:-1] in names)]
+    return {"by": "sgname", "name": name_variant(rng, rng.choice(auto))}
 
-    def mode():
-        if rng.chance(0.5):
-            return {"by": "sgno"}
-        if cc == "rhombohedral" and rng.chance(0.5):
-            # base name + explicit cell_choice
-            base = [n for n in names if not n.endswith("r") or n[:-1] not in names]
-            return {"by": "sgname", "name": name_variant(rng, rng.choice(base)), "cell_choice": "rhombohedral"}
-        return {"by": "sgname", "name": name_variant(rng, rng.choice(auto))}
+
+def generate(rng, tier, index):
+    if index < 2 * len(SETTINGS):
+        no, cc = SETTINGS[index % len(SETTINGS)]
+        module = ["tools", "laue"][(index // len(SETTINGS)) % 2]
+    else:
+        # R-centred groups get extra weight (two settings each)
+        if rng.below(10) == 0:
+            no, cc = rng.choice(R_GROUPS), rng.choice(["standard", "rhombohedral"])
+        else:
+            no, cc = rng.choice(SETTINGS)
+        module = rng.choice(["tools", "laue"])
+    workloads = [gen_workload(rng, tier, no, cc)]
+    if index >= 2 * len(SETTINGS) and rng.chance(0.35):
+        workloads.append(related_workload(rng, tier, workloads[0]))
+        if rng.chance(0.25):
+            workloads.append(related_workload(rng, tier, workloads[rng.below(2)]))
+    fault_free = rng.chance(0.4)
+    kinds = [] if fault_free else [k for k in ("preconsume", "steal", "reseed") if rng.chance(0.6)] or ["reseed"]
     ops = []
-    for _ in range(rng.between(2, 4)):
-        m = module if rng.chance(0.8) else ("laue" if module == "tools" else "tools")
-        sch = gen_schedule(rng, kinds)
-        if fault_free:
-            sch = {"start": sch["start"], "preconsume": 0, "per_draw": {}}
-        ops.append({"fn": "genhkl_all", "module": m, "mode": mode(), "output_stl": rng.chance(0.5), "rng": sch})
-    if rng.chance(0.3):
-        # state restore: repeat one call from the same start state (determinism probe)
-        j = rng.below(len(ops))
-        if ops[j]["rng"]["start"][0] != "continue":
-            ops.append(copy.deepcopy(ops[j]))
-            ops[-1]["restore_of"] = j
-    for _ in range(rng.between(1, 2)):
-        m = module if rng.chance(0.8) else ("laue" if module == "tools" else "tools")
-        ops.insert(rng.below(len(ops) + 1),
-                   {"fn": "genhkl_unique", "module": m, "mode": mode(), "output_stl": rng.chance(0.5), "rng": None})
-    for i, op in enumerate(ops):
-        if "restore_of" in op:
-            # keep the reference valid after the insertions above
-            ref = [k for k, o in enumerate(ops) if k != i and o.get("fn") == "genhkl_all" and
-                   o.get("rng") == op["rng"] and o["module"] == op["module"] and "restore_of" not in o]
-            if ref:
-                op["restore_of"] = ref[0]
-            else:
-                del op["restore_of"]
-    cfg = {"sgno": no, "cell_choice": cc, "cell": [core.fhex(x) for x in cell], "cell_style": style,
-           "smin": core.fhex(smin), "smax": core.fhex(smax), "fault_free": fault_free, "fault_kinds": kinds,
-           "pair": bool(no in R_GROUPS and rng.chance(0.6)), "session_seed": rng.bits(32),
+    for wi, w in enumerate(workloads):
+        wops = []
+        for _ in range(rng.between(2, 4) if wi == 0 else rng.between(1, 2)):
+            m = module if rng.chance(0.8) else ("laue" if module == "tools" else "tools")
+            sch = gen_schedule(rng, kinds)
+            if fault_free:
+                sch = {"start": sch["start"], "preconsume": 0, "per_draw": {}}
+            wops.append({"fn": "genhkl_all", "module": m, "mode": gen_mode(rng, w["sgno"], w["cell_choice"]),
+                         "output_stl": rng.chance(0.5), "rng": sch, "w": wi})
+        if wi == 0 and rng.chance(0.3):
+            # state restore: repeat one call from the same start state (determinism probe)
+            j = rng.below(len(wops))
+            if wops[j]["rng"]["start"][0] != "continue":
+                wops.append(copy.deepcopy(wops[j]))
+                wops[-1]["restore"] = True
+        for _ in range(rng.between(1, 2) if wi == 0 else rng.between(0, 1)):
+            m = module if rng.chance(0.8) else ("laue" if module == "tools" else "tools")
+            wops.insert(rng.below(len(wops) + 1),
+                        {"fn": "genhkl_unique", "module": m, "mode": gen_mode(rng, w["sgno"], w["cell_choice"]),
+                         "output_stl": rng.chance(0.5), "rng": None, "w": wi})
+        ops.append(wops)
+    # interleave the workloads' calls (order inside one workload is kept)
+    merged = []
+    cursors = [0] * len(ops)
+    while any(cursors[i] < len(ops[i]) for i in range(len(ops))):
+        live = [i for i in range(len(ops)) if cursors[i] < len(ops[i])]
+        i = live[0] if len(live) == 1 else rng.choice(live)
+        merged.append(ops[i][cursors[i]])
+        cursors[i] += 1
+    cfg = {"workloads": workloads, "fault_free": fault_free, "fault_kinds": kinds, "session_seed": rng.bits(32),
            "cell_container": rng.choice(["list", "list", "ndarray"])}
-    return {"property": "C05", "config": cfg, "ops": ops}
+    return {"property": "C05", "config": cfg, "ops": merged}
 
 
 # ----------------------------------------------------------------------------- RNG seam
@@ -388,6 +437,49 @@ def hex_to_rhomb_index(h):
     return (a // 3, b // 3, c // 3)
 
 
+def workloads_of(cfg):
+    """new traces carry a list of workloads; the pinned witnesses carry one inline"""
+    if "workloads" in cfg:
+        return cfg["workloads"]
+    return [{k: cfg[k] for k in ("sgno", "cell_choice", "cell", "smin", "smax") if k in cfg} | {"pair": cfg.get("pair", False)}]
+
+
+class _Ctx(object):
+    """reference model of one workload (setting, cell, shell)"""
+
+
+def build_ctx(np, sg, w, kf_open, container):
+    c = _Ctx()
+    c.no, c.cc = int(w["sgno"]), w["cell_choice"]
+    c.cell = [core.unhex(x) for x in w["cell"]]
+    c.smin, c.smax = core.unhex(w["smin"]), core.unhex(w["smax"])
+    c.kfc, c.scale = kf_class(c.no, c.cc)
+    c.Gs = O.recip_metric(c.cell)
+    c.in_quantifier = O.margin_ok(O.stl_of(O.box_points(c.cell, c.smax * c.scale), c.Gs),
+                                  [c.smin, c.smax, c.smax * c.scale]) and c.smin < c.smax
+    spg = sg.sg(sgno=c.no, cell_choice=c.cc)
+    c.rot = np.array(spg.rot)
+    c.trans = np.array(spg.trans)
+    c.nuniq = int(spg.nuniq)
+    P, sP, _ = O.shell(c.cell, c.smin, c.smax, c.rot, c.trans)
+    c.truth = set(map(tuple, P.tolist()))
+    c.ops_l = O.laue_ops(c.rot, c.nuniq)
+    c.member, c.orbits = O.families(P, c.ops_l)
+    c.base = None
+    if c.kfc is not None and kf_open:
+        c.base = set()
+        for p in baseline_reach(c.cell, c.smax * c.scale, SEGM[c.kfc]):
+            if p in c.truth:
+                c.base |= c.orbits[c.member[p]]
+    # one cell object per workload for the whole session, as a client would hold it
+    c.session_cell = np.array(c.cell, dtype=float) if container == "ndarray" else list(c.cell)
+    c.all_sets = []
+    c.uniq_rows = None
+    c.results = {}
+    c.pair = bool(w.get("pair"))
+    return c
+
+
 def execute(trace):
     import numpy as np
     import warnings
@@ -396,20 +488,17 @@ def execute(trace):
     from xfab import tools, laue, sg
     mods = {"tools": tools, "laue": laue}
     cfg = trace["config"]
-    no, cc = int(cfg["sgno"]), cfg["cell_choice"]
-    cell = [core.unhex(x) for x in cfg["cell"]]
-    smin, smax = core.unhex(cfg["smin"]), core.unhex(cfg["smax"])
+    wl = workloads_of(cfg)
     events = []
     counters = {}
     viols = []
     known = []
-    sets = {"settings": set(["%d/%s" % (no, cc)])}
+    sets = {"settings": set()}
 
     def count(k, n=1):
         counters[k] = counters.get(k, 0) + n
 
     kf_open = any(f.get("id") == "KF-traversal" for f in core.findings_for("C05"))
-    kfc, scale = kf_class(no, cc)
     logging.disable(logging.CRITICAL)
     seam = RngSeam(np)
     saved_state = np.random.get_state()
@@ -421,39 +510,23 @@ def execute(trace):
     try:
         with warnings.catch_warnings(), np.errstate(all="ignore"):
             warnings.simplefilter("ignore")
-            # ---- reference model for this (setting, cell, shell)
-            spg = sg.sg(sgno=no, cell_choice=cc)
-            rot = np.array(spg.rot)
-            trans = np.array(spg.trans)
-            P, sP, allstl = O.shell(cell, smin, smax, rot, trans)
-            if not O.margin_ok(O.stl_of(O.box_points(cell, smax * scale), O.recip_metric(cell)), [smin, smax, smax * scale]):
-                # a shrunk / hand-edited trace left the quantifier: nothing is asserted
-                return {"violation": None, "violations": [], "events": [["outside-quantifier"]], "counters": {"skip.margin": 1},
-                        "nontrivial": False, "steps": 0, "fault_free": True, "known": [], "sets": {}}
-            truth = set(map(tuple, P.tolist()))
-            truth_n = len(truth)
-            stl_by = dict(zip(map(tuple, P.tolist()), sP.tolist()))
-            ops_l = O.laue_ops(rot, int(spg.nuniq))
-            member, orbits = O.families(P, ops_l)
-            base = None
-            if kfc is not None and kf_open:
-                reach = baseline_reach(cell, smax * scale, SEGM[kfc])
-                base = set()
-                for p in reach:
-                    if p in truth:
-                        base |= orbits[member[p]]
-            Gs = O.recip_metric(cell)
-            cont = cfg.get("cell_container", "list")
-            # one cell object for the whole session, as a client would hold it
-            session_cell = tuple(cell) if cont == "tuple" else (np.array(cell, dtype=float) if cont == "ndarray" else list(cell))
+            ctxs = {}
 
-            def call(op, sgno_=no, cc_=cc, cell_=None):
+            def ctx_of(wi):
+                if wi not in ctxs:
+                    if wi >= len(wl) or wl[wi] is None:
+                        return None
+                    ctxs[wi] = build_ctx(np, sg, wl[wi], kf_open, cfg.get("cell_container", "list"))
+                    sets["settings"].add("%d/%s" % (ctxs[wi].no, ctxs[wi].cc))
+                return ctxs[wi]
+
+            def call(c, op, cc_=None, cell_=None):
                 fn = getattr(mods[op["module"]], op["fn"])
                 md = op["mode"]
                 kw = {"output_stl": bool(op["output_stl"])}
                 if md["by"] == "sgno":
-                    kw["sgno"] = sgno_
-                    kw["cell_choice"] = cc_
+                    kw["sgno"] = c.no
+                    kw["cell_choice"] = cc_ or c.cc
                 else:
                     kw["sgname"] = md["name"]
                     if "cell_choice" in md:
@@ -461,7 +534,7 @@ def execute(trace):
                 seam.begin(op.get("rng"))
                 try:
                     try:
-                        out = fn(session_cell if cell_ is None else list(cell_), smin, smax, **kw)
+                        out = fn(c.session_cell if cell_ is None else list(cell_), c.smin, c.smax, **kw)
                         exc = None
                     except Exception as e:  # noqa
                         out, exc = None, "%s: %s" % (type(e).__name__, str(e)[:80])
@@ -470,11 +543,11 @@ def execute(trace):
                     seam.sched = None
                 return out, exc, nd
 
-            def rows_of(out, site, want_cols, props_shape):
+            def rows_of(out, site, want_cols):
                 """-> (int rows list, stl column or None) or None after recording a violation"""
                 a = np.asarray(out)
                 if a.ndim != 2 or a.shape[1] != want_cols:
-                    viols.append(_viol(props_shape, "wrong number of columns", site,
+                    viols.append(_viol(["C06"], "wrong number of columns", site,
                                        "shape %s, expected (n,%d)" % (list(a.shape), want_cols)))
                     if a.ndim != 2 or a.shape[1] < 3:
                         return None
@@ -486,9 +559,9 @@ def execute(trace):
                 col = a[:, 3].tolist() if a.shape[1] >= 4 else None
                 return rows, col
 
-            def check_order_and_col(rows, col, site, output_stl):
+            def check_order_and_col(c, rows, col, site, output_stl):
                 # C06: non-decreasing sin(theta)/lambda (oracle's own value), 4th column == that value
-                s = O.stl_of(np.array(rows, dtype=np.int64).reshape(-1, 3), Gs).tolist() if rows else []
+                s = O.stl_of(np.array(rows, dtype=np.int64).reshape(-1, 3), c.Gs).tolist() if rows else []
                 for i in range(1, len(s)):
                     if s[i] < s[i - 1] * (1 - 1e-12):
                         viols.append(_viol(["C06"], "rows not ordered by sintl", site,
@@ -502,12 +575,18 @@ def execute(trace):
                             break
 
             seam.install()
-            all_sets = []       # (op index, frozenset) for cross-schedule comparison
-            uniq_rows = None
-            results = {}
+            outside = False
             for opi, op in enumerate(trace["ops"]):
+                c = ctx_of(op.get("w", 0))
+                if c is None:
+                    continue
+                if not c.in_quantifier:
+                    # a shrunk / hand-edited trace left the quantifier: nothing is asserted for this workload
+                    outside = True
+                    count("skip.margin")
+                    continue
                 site = "%s.%s" % (op["module"], op["fn"])
-                out, exc, nd = call(op)
+                out, exc, nd = call(c, op)
                 draws_total += nd
                 count("calls." + op["fn"])
                 count("mode." + op["mode"]["by"])
@@ -517,14 +596,13 @@ def execute(trace):
                     continue
                 arr = np.asarray(out)
                 events.append([opi, site, list(arr.shape), nd, core.digest(core.enc_array(arr))[:16]])
-                want_cols = 4 if op["output_stl"] else 3
-                r = rows_of(out, site, want_cols, ["C06"])
+                r = rows_of(out, site, 4 if op["output_stl"] else 3)
                 if r is None:
                     continue
                 rows, col = r
-                results[opi] = arr
-                check_order_and_col(rows, col, site, op["output_stl"])
+                check_order_and_col(c, rows, col, site, op["output_stl"])
                 got = set(rows)
+                truth = c.truth
                 if op["fn"] == "genhkl_all":
                     if len(got) != len(rows):
                         seen, rep = set(), set()
@@ -536,74 +614,76 @@ def execute(trace):
                     if extra:
                         viols.append(_viol(["C05"], "extra reflections", site, _fmt(extra)))
                     if missing:
-                        if base is not None:
-                            un = missing & base
+                        if c.base is not None:
+                            un = missing & c.base
                             if un:
                                 viols.append(_viol(["C05"], "missing reflections", site,
                                                    "%s (reached by the recorded baseline traversal)" % _fmt(un)))
                             else:
                                 known.append("KF-traversal")
-                                count("known.traversal_miss_runs_calls")
+                                count("known.traversal_miss_calls")
                         else:
                             viols.append(_viol(["C05"], "missing reflections", site, _fmt(missing)))
-                    all_sets.append((opi, frozenset(got)))
-                    if "restore_of" in op and op["restore_of"] in results:
-                        same = (results[op["restore_of"]].shape == arr.shape and
-                                results[op["restore_of"]].tobytes() == arr.tobytes())
-                        count("probe.state_restore_identical" if same else "probe.state_restore_differs")
+                    if op.get("restore"):
+                        prev = [a for (m_, r_, a) in c.results.get("restore", []) if m_ == op["module"] and r_ == op["rng"]]
+                        if prev:
+                            same = prev[0].shape == arr.shape and prev[0].tobytes() == arr.tobytes()
+                            count("probe.state_restore_identical" if same else "probe.state_restore_differs")
+                    elif op.get("rng") and op["rng"]["start"][0] != "continue":
+                        c.results.setdefault("restore", []).append((op["module"], op["rng"], arr))
+                    c.all_sets.append((opi, frozenset(got)))
                 else:
-                    # genhkl_unique: one member per Laue family, nothing else
                     notin = [x for x in rows if x not in truth]
                     if notin:
                         viols.append(_viol(["C06"], "unique: row is not an allowed reflection of the shell", site, _fmt(notin)))
                     fam = {}
                     dup = []
                     for x in rows:
-                        if x in member:
-                            if member[x] in fam:
-                                dup.append((fam[member[x]], x))
-                            fam[member[x]] = x
+                        if x in c.member:
+                            if c.member[x] in fam:
+                                dup.append((fam[c.member[x]], x))
+                            fam[c.member[x]] = x
                     if dup:
                         viols.append(_viol(["C06"], "unique: two rows in one Laue family", site, str(dup[:4])))
-                    lost = [i for i in range(len(orbits)) if i not in fam]
+                    lost = [i for i in range(len(c.orbits)) if i not in fam]
                     if lost:
-                        if base is not None:
-                            un = [i for i in lost if next(iter(orbits[i])) in base]
+                        if c.base is not None:
+                            un = [i for i in lost if next(iter(c.orbits[i])) in c.base]
                             if un:
                                 viols.append(_viol(["C06"], "unique: Laue family missing", site,
-                                                   _fmt([min(orbits[i]) for i in un]) + " (reached by the recorded baseline traversal)"))
+                                                   _fmt([min(c.orbits[i]) for i in un]) + " (reached by the recorded baseline traversal)"))
                             else:
                                 known.append("KF-traversal")
                         else:
-                            viols.append(_viol(["C06"], "unique: Laue family missing", site, _fmt([min(orbits[i]) for i in lost])))
-                    if uniq_rows is None:
-                        uniq_rows = (site, rows)
-            if [float(x) for x in session_cell] != [float(x) for x in cell]:
-                count("probe.cell_argument_mutated")
-            # C06 union clause and C05 schedule independence
-            if uniq_rows is not None:
-                union = set()
-                for x in uniq_rows[1]:
-                    union |= O.orbit(x, ops_l)
-                for opi, s in all_sets:
-                    if set(s) != union:
-                        viols.append(_viol(["C06"], "genhkl_all is not the union of genhkl_unique's families",
-                                           "%s.genhkl_all" % trace["ops"][opi]["module"],
-                                           "all-union %s ; union-all %s" % (_fmt(set(s) - union), _fmt(union - set(s)))))
+                            viols.append(_viol(["C06"], "unique: Laue family missing", site,
+                                               _fmt([min(c.orbits[i]) for i in lost])))
+                    if c.uniq_rows is None:
+                        c.uniq_rows = (site, rows)
+            # per workload: C06 union clause, C05 schedule / history independence, setting pairing
+            for wi in sorted(ctxs):
+                c = ctxs[wi]
+                truth_n += len(c.truth)
+                if c.uniq_rows is not None:
+                    union = set()
+                    for x in c.uniq_rows[1]:
+                        union |= O.orbit(x, c.ops_l)
+                    for opi, s_ in c.all_sets:
+                        if set(s_) != union:
+                            viols.append(_viol(["C06"], "genhkl_all is not the union of genhkl_unique's families",
+                                               "%s.genhkl_all" % trace["ops"][opi]["module"],
+                                               "all-union %s ; union-all %s" % (_fmt(set(s_) - union), _fmt(union - set(s_)))))
+                            break
+                for (i, a), (j, b) in zip(c.all_sets, c.all_sets[1:]):
+                    if a != b:
+                        viols.append(_viol(["C05"], "result depends on the RNG schedule / call history",
+                                           "%s.genhkl_all" % trace["ops"][j]["module"],
+                                           "call %d vs call %d differ by %s" % (i, j, _fmt(set(a) ^ set(b)))))
                         break
-            for (i, a), (j, b) in zip(all_sets, all_sets[1:]):
-                if a != b:
-                    viols.append(_viol(["C05"], "result depends on the RNG schedule / call history",
-                                       "%s.genhkl_all" % trace["ops"][j]["module"],
-                                       "call %d vs call %d differ by %s" % (i, j, _fmt(set(a) ^ set(b)))))
-                    break
-            # hexagonal <-> rhombohedral setting (R-centred groups)
-            if cfg.get("pair") and no in R_GROUPS and all_sets:
-                try:
-                    pair_check(np, cfg, no, cc, cell, smin, smax, all_sets[0][1], trace["ops"][all_sets[0][0]],
-                               call, sg, viols, known, count, kf_open, events)
-                except core.HarnessError:
-                    raise
+                if [float(x) for x in c.session_cell] != [float(x) for x in c.cell]:
+                    count("probe.cell_argument_mutated")
+                if c.pair and c.no in R_GROUPS and c.all_sets:
+                    pair_check(np, c, c.all_sets[0][1], trace["ops"][c.all_sets[0][0]], call, sg, viols, known, count,
+                               kf_open, events)
     finally:
         seam.remove()
         np.random.set_state(saved_state)
@@ -611,20 +691,22 @@ def execute(trace):
     for k, v in seam.fired.items():
         count("fault." + k, v)
     count("draws_intercepted", draws_total)
+    count("workloads_per_run.%d" % len([w for w in wl if w is not None]))
     return {"violation": viols[0] if viols else None, "violations": viols, "events": events, "counters": counters,
             "nontrivial": truth_n >= 1 and draws_total >= 1, "steps": draws_total + len(trace["ops"]),
             "fault_free": bool(cfg.get("fault_free")), "known": sorted(set(known)),
             "sets": {k: sorted(v) for k, v in sets.items()}}
 
 
-def pair_check(np, cfg, no, cc, cell, smin, smax, got_main, op_main, call, sg, viols, known, count, kf_open, events):
+def pair_check(np, c, got_main, op_main, call, sg, viols, known, count, kf_open, events):
     """same reflections in the hexagonal and the rhombohedral setting under the obverse transformation"""
+    no, cc, cell, smin, smax = c.no, c.cc, c.cell, c.smin, c.smax
     if cc == "standard":
-        cell_h, cell_r = cell, rhomb_from_hex_cell(cell)
+        cell_r = rhomb_from_hex_cell(cell)
         other_cc, other_cell = "rhombohedral", cell_r
     else:
-        cell_r, cell_h = cell, hex_from_rhomb_cell(cell)
-        other_cc, other_cell = "standard", cell_h
+        cell_r = cell
+        other_cc, other_cell = "standard", hex_from_rhomb_cell(cell)
     kfc_o, scale_o = kf_class(no, other_cc)
     # the derived cell must respect the margin rule as well (same lattice, but rounding moves values)
     if not O.margin_ok(O.stl_of(O.box_points(other_cell, smax * scale_o), O.recip_metric(other_cell)),
@@ -633,7 +715,7 @@ def pair_check(np, cfg, no, cc, cell, smin, smax, got_main, op_main, call, sg, v
         return
     op = {"fn": "genhkl_all", "module": op_main["module"], "mode": {"by": "sgno"}, "output_stl": False,
           "rng": {"start": ["continue"], "preconsume": 0, "per_draw": {}}}
-    out, exc, nd = call(op, sgno_=no, cc_=other_cc, cell_=other_cell)
+    out, exc, nd = call(c, op, cc_=other_cc, cell_=other_cell)
     site = "%s.genhkl_all" % op["module"]
     if exc is not None:
         viols.append({"props": ["C05"], "clause": "exception", "site": site, "detail": "pair setting: " + exc})
@@ -695,18 +777,37 @@ def execute_for(prop, trace):
 
 
 # ----------------------------------------------------------------------------- shrinking
+def _normalise(trace):
+    """convert an old single-workload trace to the workload form (for shrinking)"""
+    t = copy.deepcopy(trace)
+    if "workloads" not in t["config"]:
+        t["config"]["workloads"] = workloads_of(t["config"])
+    for o in t["ops"]:
+        o.setdefault("w", 0)
+    return t
+
+
 def shrink_candidates(trace):
+    trace = _normalise(trace)
     ops = trace["ops"]
+    wl = trace["config"]["workloads"]
+    used = set(o["w"] for o in ops)
+    for wi in range(len(wl)):
+        if wl[wi] is not None and len([w for w in wl if w is not None]) > 1:
+            t = copy.deepcopy(trace)
+            t["config"]["workloads"][wi] = None
+            t["ops"] = [o for o in ops if o["w"] != wi]
+            if t["ops"]:
+                yield t
     for i in range(len(ops)):
         t = copy.deepcopy(trace)
         del t["ops"][i]
-        for o in t["ops"]:
-            o.pop("restore_of", None)
         yield t
-    if trace["config"].get("pair"):
-        t = copy.deepcopy(trace)
-        t["config"]["pair"] = False
-        yield t
+    for wi in range(len(wl)):
+        if wl[wi] is not None and wi not in used:
+            t = copy.deepcopy(trace)
+            t["config"]["workloads"][wi] = None
+            yield t
     for i, op in enumerate(ops):
         sch = op.get("rng")
         if sch:
@@ -734,49 +835,63 @@ def shrink_candidates(trace):
             t = copy.deepcopy(trace)
             t["ops"][i]["output_stl"] = False
             yield t
-    cfg = trace["config"]
-    smin, smax = core.unhex(cfg["smin"]), core.unhex(cfg["smax"])
-    if smin != 0.0:
-        t = copy.deepcopy(trace)
-        t["config"]["smin"] = core.fhex(0.0)
-        yield t
-    for f in (0.5, 0.7, 0.85, 0.95):
-        t = copy.deepcopy(trace)
-        t["config"]["smax"] = core.fhex(max(smax * f, smin + 1e-3))
-        yield t
-    cell = [core.unhex(x) for x in cfg["cell"]]
-    for nd in (0, 1):
-        rc = [round(x, nd) for x in cell]
-        if rc != cell and all(x > 0 for x in rc[:3]) and _valid_angles(*rc[3:]):
+    for wi, w in enumerate(wl):
+        if w is None:
+            continue
+        if w.get("pair"):
             t = copy.deepcopy(trace)
-            t["config"]["cell"] = [core.fhex(x) for x in rc]
+            t["config"]["workloads"][wi]["pair"] = False
             yield t
+        smin, smax = core.unhex(w["smin"]), core.unhex(w["smax"])
+        if smin != 0.0:
+            t = copy.deepcopy(trace)
+            t["config"]["workloads"][wi]["smin"] = core.fhex(0.0)
+            yield t
+        for f in (0.5, 0.7, 0.85, 0.95):
+            t = copy.deepcopy(trace)
+            t["config"]["workloads"][wi]["smax"] = core.fhex(max(smax * f, smin + 1e-3))
+            yield t
+        cell = [core.unhex(x) for x in w["cell"]]
+        for nd in (0, 1):
+            rc = [round(x, nd) for x in cell]
+            if rc != cell and all(x > 0 for x in rc[:3]) and _valid_angles(*rc[3:]):
+                t = copy.deepcopy(trace)
+                t["config"]["workloads"][wi]["cell"] = [core.fhex(x) for x in rc]
+                yield t
 
 
 def trace_size(trace):
-    cfg = trace["config"]
+    trace = _normalise(trace)
+    wl = [w for w in trace["config"]["workloads"] if w is not None]
     faults = sum(len(o["rng"]["per_draw"]) + (1 if o["rng"].get("preconsume") else 0) +
                  (0 if o["rng"]["start"] == ["seed", 0] else 1) for o in trace["ops"] if o.get("rng"))
-    cell = [core.unhex(x) for x in cfg["cell"]]
-    digits = sum(len(repr(x)) for x in cell)
-    return (len(trace["ops"]), 1 if cfg.get("pair") else 0, faults,
+    digits = sum(len(repr(core.unhex(x))) for w in wl for x in w["cell"])
+    return (len(wl), len(trace["ops"]), sum(1 for w in wl if w.get("pair")), faults,
             sum(1 for o in trace["ops"] if o["mode"]["by"] != "sgno") + sum(1 for o in trace["ops"] if o["output_stl"]),
-            0 if core.unhex(cfg["smin"]) == 0.0 else 1, round(core.unhex(cfg["smax"]), 6), digits)
+            sum(0 if core.unhex(w["smin"]) == 0.0 else 1 for w in wl),
+            round(sum(core.unhex(w["smax"]) for w in wl), 6), digits)
 
 
-RULE = ("one run = one simulated session: a (group setting, conforming cell, margin-respecting shell) and 3-7 calls of "
-        "genhkl_all / genhkl_unique (tools or laue, by number or by name, with or without the sintl column), each "
-        "genhkl_all under its own schedule of the process-global numpy RNG stream (start state, prior consumption, steals "
-        "and hostile reseeds before individual draws, or the stream left by the previous call); run indices below 474 "
-        "enumerate all 237 settings x 2 modules; distinct = distinct trace digest; non-trivial = the shell contains at "
-        "least one allowed reflection and at least one draw was intercepted")
+RULE = ("one run = one simulated session: 1-3 workloads (group setting, conforming cell, margin-respecting shell; later "
+        "workloads differ from the first in few arguments) and 3-12 interleaved calls of genhkl_all / genhkl_unique (tools or "
+        "laue, by number or by name, with or without the sintl column), each genhkl_all under its own schedule of the "
+        "process-global numpy RNG stream (start state, prior consumption, steals and hostile reseeds before individual draws, "
+        "or the stream left by the previous call); run indices below 474 enumerate all 237 settings x 2 modules; distinct = "
+        "distinct trace digest; non-trivial = the shells contain at least one allowed reflection and at least one draw was "
+        "intercepted")
 
 
 def sample_view(trace):
-    cfg = dict(trace["config"])
-    cfg["cell"] = [core.unhex(x) for x in cfg["cell"]]
-    cfg["smin"], cfg["smax"] = core.unhex(cfg["smin"]), core.unhex(cfg["smax"])
-    return {"config": cfg, "ops": trace["ops"][:4], "n_ops": len(trace["ops"])}
+    out = []
+    for w in workloads_of(trace["config"]):
+        if w is None:
+            continue
+        w = dict(w)
+        w["cell"] = [core.unhex(x) for x in w["cell"]]
+        w["smin"], w["smax"] = core.unhex(w["smin"]), core.unhex(w["smax"])
+        out.append(w)
+    return {"workloads": out, "fault_kinds": trace["config"].get("fault_kinds"), "ops": trace["ops"][:4],
+            "n_ops": len(trace["ops"])}
 
 
 def coverage_extra(prop, merged, pre):
